@@ -40,10 +40,10 @@ def ref_hash(message, n, digest):
 def plan(tier, seed):
     specs = []
     n = 8 if tier == "quick" else 14
-    per = 1200 if tier == "quick" else 20000
+    per = 3000 if tier == "quick" else 600000
     for i in range(n):
         specs.append({"name": f"rand{i}", "kind": "rand", "index": i, "cases": per,
-                      "budget_s": 60 if tier == "quick" else 900})
+                      "budget_s": 60 if tier == "quick" else 420})
     specs.append({"name": "sweep", "kind": "sweep"})
     specs.append({"name": "contracts", "kind": "contracts"})
     return specs
